@@ -233,6 +233,7 @@ def children_are_direct(ctx):
 
 
 def run(ctx):
+    borrowed_fd_not_consumed(ctx)
     children_are_direct(ctx)
     from .C11 import instance_action_args
     instance_action_args(ctx)
